@@ -87,6 +87,24 @@ func (idx *BigIndexWriter) AddRow(values map[string]string) (uint32, error) {
 	return rowID, nil
 }
 
+// Close releases the temporary database transaction that is held open
+// between AddRow calls. It must be called when the writer is abandoned
+// without a successful Flush; calling it after Flush is harmless.
+func (idx *BigIndexWriter) Close() error {
+	idx.mtx.Lock()
+	defer idx.mtx.Unlock()
+
+	if idx.tempTx == nil {
+		return nil
+	}
+
+	if err := idx.tempTx.Rollback(); err != nil && err != bbolt.ErrTxClosed {
+		return err
+	}
+
+	return nil
+}
+
 func (idx *BigIndexWriter) Flush() error {
 	if err := idx.tempTx.Commit(); err != nil {
 		return fmt.Errorf("failed to commit: %w", err)
